@@ -346,6 +346,7 @@ pub enum BoardValidationError {
     InvalidCastleRights,
     InvalidEnpassant,
     TooManyPieces,
+    OpponentInCheck,
 }
 
 #[derive(Debug, Clone, Copy, PartialEq, Eq)]
@@ -403,8 +404,22 @@ impl Board {
 
         self.validate_en_passant()?;
         self.validate_castle_rights()?;
+        self.validate_opponent_not_in_check()?;
 
         Ok(())
+    }
+
+    fn validate_opponent_not_in_check(&self) -> Result<(), BoardValidationError> {
+        // the side that just moved may not have left its king attacked
+        // (this also rejects adjacent kings)
+        let mut flipped = *self;
+        flipped.turn = !self.turn;
+
+        if flipped.is_legal_king_position(flipped.king_sq(flipped.turn)) {
+            Ok(())
+        } else {
+            Err(BoardValidationError::OpponentInCheck)
+        }
     }
 
     fn validate_en_passant(&self) -> Result<(), BoardValidationError> {
